@@ -119,7 +119,18 @@ func runCloserRulesF(c *Ctx, rule string, entries []closerEntry, keep func(what 
 		isEntry[e.key] = true
 	}
 	g.base.AutoInline = func(h *FuncInfo) bool {
-		return !isEntry[h.Key] && !ast.IsExported(h.Decl.Name.Name) && strings.Contains(h.Pkg.PkgPath, modPath) && hasCloserSig(h)
+		// exported helpers of other module packages too (backendproxy.Enqueue-style): what matters is
+		// that the function has no ownership summary of its own and handles something closable
+		if isEntry[h.Key] || !strings.Contains(h.Pkg.PkgPath, modPath) || !hasCloserSig(h) {
+			return false
+		}
+		if _, summarised := closerConsumers[h.Key]; summarised {
+			return false
+		}
+		if _, acq := closerAcquirers[h.Key]; acq {
+			return false
+		}
+		return true
 	}
 	// a resource whose variable is found to be nil does not exist on that path;
 	// remember it at the test (loop-scoped variables are forgotten per iteration)
@@ -426,6 +437,27 @@ func (g *closerRules) assign(x *Exec, as *ast.AssignStmt, s St) []St {
 		}
 		switch r := r.(type) {
 		case *ast.CompositeLit:
+			// item := UploadReq{..., Rc: rc}: a local struct variable holds the closer in a field; it
+			// stays this function's responsibility until the variable is sent, returned or the closer
+			// closed (a literal built in place for a send / return / argument is handed over at once)
+			if lt, ok := b.LTerm(x, as.Lhs[i], s); ok {
+				if _, isIdent := ast.Unparen(as.Lhs[i]).(*ast.Ident); isIdent {
+					aliased := false
+					for _, el := range r.Elts {
+						kv, isKV := el.(*ast.KeyValueExpr)
+						if !isKV {
+							continue
+						}
+						if id, rs := g.res(x, kv.Value, s); id != "" && rs == "open" {
+							s = s.Set("rc:"+lt+"."+exprStr(kv.Key), id)
+							aliased = true
+						}
+					}
+					if aliased {
+						continue
+					}
+				}
+			}
 			s = g.moveIntoLit(x, r, s)
 		case *ast.Ident, *ast.SelectorExpr:
 			id, rs := g.res(x, r, s)
@@ -524,6 +556,7 @@ func (g *closerRules) stmt(x *Exec, n ast.Node, s St) ([]St, bool) {
 	}
 	if snd, ok := n.(*ast.SendStmt); ok {
 		st := s
+
 		v := ast.Unparen(snd.Value)
 		if cl, ok := v.(*ast.CompositeLit); ok {
 			st = g.moveIntoLit(x, cl, st)
@@ -718,7 +751,8 @@ func hasCloserSig(h *FuncInfo) bool {
 	if !ok {
 		return false
 	}
-	closable := func(t types.Type) bool {
+	var closable func(t types.Type, depth int) bool
+	closable = func(t types.Type, depth int) bool {
 		for _, tt := range []types.Type{t, types.NewPointer(t)} {
 			ms := types.NewMethodSet(tt)
 			for i := 0; i < ms.Len(); i++ {
@@ -727,15 +761,28 @@ func hasCloserSig(h *FuncInfo) bool {
 				}
 			}
 		}
+		// a struct (or channel of structs) that carries something closable: an upload request
+		if depth < 2 {
+			switch u := t.Underlying().(type) {
+			case *types.Struct:
+				for i := 0; i < u.NumFields(); i++ {
+					if closable(u.Field(i).Type(), depth+1) {
+						return true
+					}
+				}
+			case *types.Pointer:
+				return closable(u.Elem(), depth+1)
+			}
+		}
 		return false
 	}
 	for i := 0; i < sig.Params().Len(); i++ {
-		if closable(sig.Params().At(i).Type()) {
+		if closable(sig.Params().At(i).Type(), 0) {
 			return true
 		}
 	}
 	for i := 0; i < sig.Results().Len(); i++ {
-		if closable(sig.Results().At(i).Type()) {
+		if closable(sig.Results().At(i).Type(), 0) {
 			return true
 		}
 	}
